@@ -115,6 +115,16 @@ def run_config(ctx, case, npts=None):
             arr[...] = arr[::-1].copy()
         if len(tr.CALLER_ARRAYS) > 1000:
             tr.CALLER_ARRAYS.clear()
+        # read-only methods called between forward and backward (a sampler used to draw
+        # starting points, a prior, a printout) leave the configuration alone
+        if int(case.get("seed", 0)) % 3 == 1:
+            for ro_ in (lambda: t.params_sample(5), lambda: t.params_logprior(),
+                        lambda: str(t), lambda: t.params_sample(3, -2.0, 2.0)):
+                try:
+                    call(ro_)
+                except Exception:
+                    pass
+            ctx.tag("read-only-calls-in-between")
         # meanwhile the caller asks the factory for another transform of the same class
         # and options with other parameter values (one per site, say), and uses it
         if via == "get_transform" and int(case.get("seed", 0)) % 2 == 0:
